@@ -607,7 +607,9 @@ impl Xot {
         if !self.is_element(node) {
             return Err(Error::NotElement(node));
         };
-        let mut fullname_serializer = FullnameSerializer::new(self, vec![]);
+        // the xml prefix is always bound
+        let mut fullname_serializer =
+            FullnameSerializer::new(self, self.base_prefixes().into_iter().collect());
         let mut missing_namespace_ids = HashSet::default();
         for edge in self.traverse(node) {
             match edge {
@@ -873,7 +875,9 @@ impl Xot {
     /// defined for them in the context of the node are reported.
     pub fn unresolved_namespaces(&self, node: Node) -> Vec<NamespaceId> {
         let mut namespaces = Vec::new();
-        let mut fullname_serializer = FullnameSerializer::new(self, vec![]);
+        // the xml prefix is always bound
+        let mut fullname_serializer =
+            FullnameSerializer::new(self, self.base_prefixes().into_iter().collect());
         for edge in self.traverse(node) {
             match edge {
                 NodeEdge::Start(node) => {
@@ -881,7 +885,10 @@ impl Xot {
                     if let Some(element) = element {
                         fullname_serializer.push(self.namespace_declarations(node));
                         let namespace_id = self.namespace_for_name(element.name());
-                        if !fullname_serializer.is_namespace_known(namespace_id) {
+                        // a name in no namespace needs no prefix
+                        if namespace_id != self.no_namespace_id
+                            && !fullname_serializer.is_namespace_known(namespace_id)
+                        {
                             namespaces.push(namespace_id);
                         }
                         for name in self.attributes(node).keys() {
